@@ -1,6 +1,8 @@
 import OpenFecVerif.Proofs.GF8.Model
 import OpenFecVerif.Proofs.GF4.Model
 import OpenFecVerif.Model.Api
+import OpenFecVerif.Proofs.RSExec
+import OpenFecVerif.Proofs.FldX
 /-!
 # C02 — both Reed-Solomon codecs are MDS
 
@@ -55,3 +57,10 @@ theorem C02_fewer_failure {σ : Type} (IO : Api.SymIO σ) (s : Api.Session σ) (
 -- non-vacuity: a concrete instance of the hypotheses (k = 3, n = 6, S = [5, 1, 3])
 example : (3 : ℕ) ≤ 6 ∧ (6 : ℕ) ≤ 255 ∧ ([5, 1, 3] : List ℕ).Nodup ∧ (∀ s ∈ ([5, 1, 3] : List ℕ), s < 6) ∧
     ([5, 1, 3] : List ℕ).length = 3 := by decide
+
+/-! ### the executable model's field operations (`Proofs/FldX.lean`, `Proofs/RSExec.lean`) -/
+
+/-- the field operations the executable session model uses (`Api.fldOf`: table look-ups) are faithful copies of GF(2^8) and GF(2^4) -/
+theorem C02_executable_field_ops : (Api.fldOf 1 0 = RS.fld8x ∧ Api.fldOf 2 8 = RS.fld8x ∧ Api.fldOf 2 4 = RS.fld4x) ∧
+    Nonempty (FieldModel GF8.GF256 RS.fld8x) ∧ Nonempty (FieldModel GF4.GF16 RS.fld4x) :=
+  ⟨⟨rfl, rfl, rfl⟩, ⟨GF8.modelx⟩, ⟨GF4.modelx⟩⟩
